@@ -42,7 +42,7 @@ COMBOS = [(False, False), (True, False), (False, True), (True, True)]
 
 TRACE_CFG = """SPECIFICATION TraceSpec
 CONSTANTS
-  Replica = {1, 2, 3, 4, 5}
+  Replica = {1, 2, 3, 4, 5, 6}
   ET = 5
   HT = 1
   PreVote = %s
